@@ -130,7 +130,10 @@ def verify_function(world, qualname, timeout_ms=20000, max_paths=3000, only_path
                 values['result'] = outcome[1]
                 for lbl, fn in c.ensures:
                     cl = run.tobool(run.eval_clause(c, fn, values))
-                    run.prove(cl, 'post:%s:%s' % (qualname, lbl), 'post')
+                    conj = cl.children() if z3.is_and(cl) else [cl]
+                    for k, part in enumerate(conj):
+                        run.prove(part, 'post:%s:%s%s' % (qualname, lbl, '#%d' % k if len(conj) > 1 else ''),
+                                  'post')
                 for lbl, fn in c.must_raise:
                     cl = run.tobool(run.eval_clause(c, fn, values))
                     run.prove(z3.Not(cl), 'must-raise:%s:%s' % (qualname, lbl), 'post')
